@@ -64,6 +64,27 @@ theorem C19_early_leaver_leaves_nothing (s : Srv) (hs : s.stopRequested = false)
   · simp [Srv.step, hl, Srv.drop, Srv.settle, hs]
   · simp [Srv.allGone, List.all_append]
 
+/-- the same server object can be started again once its serving task is done: `serve_forever()` again hands back
+a live task of a listening server (socket file back for a Unix server), with no connection of the earlier cycle
+attached; all theorems above quantify over histories with any number of such restarts -/
+theorem C19_restart_serves_again (unix : Bool) (ins : List SIn) (hd : ((Srv.start unix).run ins).serveDone = true) :
+    (((Srv.start unix).run ins).step .restart).listening = true
+    ∧ (((Srv.start unix).run ins).step .restart).accepts = true
+    ∧ (((Srv.start unix).run ins).step .restart).serveDone = false
+    ∧ (((Srv.start unix).run ins).step .restart).stopRequested = false
+    ∧ (((Srv.start unix).run ins).step .restart).socketFile = unix
+    ∧ (((Srv.start unix).run ins).step .restart).allGone = true
+    ∧ (((Srv.start unix).run ins).step .restart).conns = ((Srv.start unix).run ins).conns := by
+  have inv := srvInv_run ins (srvInv_start unix)
+  have hu := run_unix ins (Srv.start unix)
+  have hg := (inv.done_only hd).2
+  generalize (Srv.start unix).run ins = t at *
+  have hs : t.step .restart = { t with listening := true, stopRequested := false, serveDone := false,
+                                       socketFile := t.unix } := by
+    simp only [Srv.step, hd, if_true]
+  rw [hs]
+  exact ⟨rfl, rfl, rfl, rfl, hu, hg, rfl⟩
+
 /-! non-vacuity: two clients, stop while both are connected, one leaves by `exit`, the other by EOF -/
 
 example : (Srv.start true).run [.connect, .connect, .line 0, .stop, .connect, .exitCmd 0]
@@ -82,5 +103,13 @@ example : (Srv.start true).run [.connect, .clientClose 0, .connect, .clientClose
 example : (Srv.start false).run [.connect, .stop, .line 0]
     = { unix := false, listening := false, stopRequested := true, serveDone := true, socketFile := false,
         conns := [false], commands := 1 } := by decide +kernel
+
+-- a second cycle on the same server object: stop, restart, a new client (index 1) is served, stop again
+example : (Srv.start true).run [.connect, .stop, .clientClose 0, .restart, .connect, .line 1, .stop, .line 1]
+    = { unix := true, listening := false, stopRequested := true, serveDone := true, socketFile := false,
+        conns := [false, false], commands := 2 } := by decide +kernel
+
+example : ((Srv.start true).run [.connect, .stop, .clientClose 0, .restart, .connect]).listening = true := by
+  decide +kernel
 
 end Taskpool.Control
